@@ -303,16 +303,52 @@ inline std::vector<Val> enumerate(const Sch& s, int depth, DomainCfg& cfg) {
   return out;
 }
 
+// which state every sum type of a value is in: two values with the same encoding can still be different objects
+// (Optional<Optional<U>> engaged-but-empty vs empty, Result<E,Result<E,U>> value-holding-an-error vs error) and the WRITER has to
+// cope with both
+inline void sum_states(const Sch& s, const Val& v, std::string& out) {
+  switch (s.k) {
+    case K::Opt: out += v.u ? 'S' : 'N'; if (v.u && !v.kids.empty()) sum_states(s.kids[0], v.kids[0], out); break;
+    case K::Res: out += v.u ? 'V' : 'E'; if (v.u && !v.kids.empty()) sum_states(s.kids[1], v.kids[0], out); break;
+    case K::Var: {
+      const int64_t i = (int64_t)v.u;
+      out += (char)('a' + (i < 0 ? 25 : i % 25));
+      if (i >= 0 && (size_t)i < s.kids.size() && !v.kids.empty()) sum_states(s.kids[i], v.kids[0], out);
+      break;
+    }
+    case K::AryVec: case K::AryLB:
+      for (auto& k : v.kids) sum_states(s.kids[0], k, out);
+      break;
+    case K::AryFix: case K::Stu:
+      for (size_t i = 0; i < v.kids.size() && i < s.kids.size(); i++) sum_states(s.kids[i], v.kids[i], out);
+      break;
+    case K::Map:
+      for (size_t i = 0; i + 1 < v.kids.size(); i += 2) { sum_states(s.kids[0], v.kids[i], out); sum_states(s.kids[1], v.kids[i + 1], out); }
+      break;
+    case K::Tab:
+      for (size_t i = 0; i < v.kids.size() && i < s.kids.size(); i++) {
+        out += v.kids[i].u ? 'e' : '-';
+        if (v.kids[i].u && !v.kids[i].kids.empty()) sum_states(s.kids[i], v.kids[i].kids[0], out);
+      }
+      break;
+    default: break;
+  }
+}
 inline std::vector<Val> domain(const Sch& s, DomainCfg& cfg, int depth = 0) {
   std::vector<Val> all = enumerate(s, depth, cfg);
-  // exact de-duplication, order preserved
+  // exact de-duplication (same bytes AND every sum type in the same state), order preserved
   std::vector<Val> out;
   std::set<std::vector<uint8_t>> seen;
   for (auto& v : all) {
     Enc e;
     e.href = [](int64_t hv) { return hv; };  // keep distinct handle values distinct
     refenc(s, v, e);
-    if (seen.insert(e.bytes).second) out.push_back(v);
+    std::string st;
+    sum_states(s, v, st);
+    std::vector<uint8_t> key = e.bytes;
+    key.push_back(0xff);
+    key.insert(key.end(), st.begin(), st.end());
+    if (seen.insert(key).second) out.push_back(v);
   }
   return out;
 }
